@@ -8,21 +8,21 @@ use num_traits::Float;
 fn chk(ok: bool, what: String) -> Result<(), String> {
     if ok { Ok(()) } else { Err(what) }
 }
-fn q(n: i128, d: i128) -> BigRat { BigRat::from_i(n, d) }
-fn scale(v: &[BigRat], k: &BigRat) -> Vec<BigRat> { v.iter().map(|x| x.mul(k)).collect() }
-fn addv(a: &[BigRat], b: &[BigRat]) -> Vec<BigRat> { a.iter().zip(b).map(|(x, y)| x.add(y)).collect() }
-fn cat(parts: &[&[BigRat]]) -> Vec<BigRat> { parts.iter().flat_map(|p| p.iter().cloned()).collect() }
+pub fn q(n: i128, d: i128) -> BigRat { BigRat::from_i(n, d) }
+pub fn scale(v: &[BigRat], k: &BigRat) -> Vec<BigRat> { v.iter().map(|x| x.mul(k)).collect() }
+pub fn addv(a: &[BigRat], b: &[BigRat]) -> Vec<BigRat> { a.iter().zip(b).map(|(x, y)| x.add(y)).collect() }
+pub fn cat(parts: &[&[BigRat]]) -> Vec<BigRat> { parts.iter().flat_map(|p| p.iter().cloned()).collect() }
 fn pt1(x: &[Xq]) -> Point1<Xq> { Point1::new(x[0]) }
 
 /// a rational vector of rational length in dimension n (1..4): rational unit vector times a generic factor
-fn ratlen(ctx: &mut Ctx, n: usize) -> Vec<BigRat> {
+pub fn ratlen(ctx: &mut Ctx, n: usize) -> Vec<BigRat> {
     let k = ctx.generic(1).pop().unwrap();
     let u = match n { 1 => vec![BigRat::one()], 2 => ctx.unit2(), 3 => ctx.unit3(), _ => ctx.unit4() };
     scale(&u, &k)
 }
 
 /// orthonormal rational frames (e1, e2) in dimension n
-fn frame(ctx: &mut Ctx, n: usize) -> (Vec<BigRat>, Vec<BigRat>) {
+pub fn frame(ctx: &mut Ctx, n: usize) -> (Vec<BigRat>, Vec<BigRat>) {
     match n {
         2 => { let u = ctx.unit2(); (u.clone(), vec![u[1].neg(), u[0].clone()]) }
         3 => {
